@@ -284,27 +284,42 @@ func cmdCheck(args []string) int {
 			retry = append(retry, o)
 		}
 	}
-	if len(retry) > 0 && len(retry) <= 40 {
+	if len(retry) > 0 {
 		secondPass = true
-		sem2 := make(chan struct{}, 3)
-		var wg sync.WaitGroup
-		for _, o := range retry {
-			o := o
-			wg.Add(1)
-			sem2 <- struct{}{}
-			go func() {
-				defer wg.Done()
-				defer func() { <-sem2 }()
-				first := o.Output
-				solve(oblCtx[o], o, qdir, timeout*3, *tier == "thorough")
-				if o.Status != "unsat" {
-					o.Output = first + "\nsecond pass: " + o.Output
-				} else {
-					o.Solver += " (second pass)"
+		stillFailing := 0
+		for i := 0; i < len(retry); i += 3 {
+			// once three obligations stay undecided after their retry the tree is reported as
+			// violating anyway; the remaining ones keep their first-pass status (this bounds the
+			// time of a check on a tree that breaks many obligations)
+			if stillFailing >= 3 {
+				for _, o := range retry[i:] {
+					o.Output += "\nsecond pass: skipped (three obligations already failed their retry)"
 				}
-			}()
+				break
+			}
+			var wg sync.WaitGroup
+			batch := retry[i:min(i+3, len(retry))]
+			for _, o := range batch {
+				o := o
+				wg.Add(1)
+				go func() {
+					defer wg.Done()
+					first := o.Output
+					solve(oblCtx[o], o, qdir, timeout*3, *tier == "thorough")
+					if o.Status != "unsat" {
+						o.Output = first + "\nsecond pass: " + o.Output
+					} else {
+						o.Solver += " (second pass)"
+					}
+				}()
+			}
+			wg.Wait()
+			for _, o := range batch {
+				if o.Status != "unsat" {
+					stillFailing++
+				}
+			}
 		}
-		wg.Wait()
 	}
 	solveS := time.Since(solveStart).Seconds()
 
